@@ -74,7 +74,12 @@ Inductive qevent :=
 | Arrive (i : item)   (* AddRateLimited(i) = AddAfter(i, When(i)) *)
 | Fire (i : item)     (* waitingLoop: the entry of i is ready, pop it and Add(i) *)
 | Get (d : Z)         (* the idle worker takes the head of the queue; its callback takes d *)
-| Done.               (* the callback returned: Done(item) *)
+| Done                (* the callback returned: Done(item) *)
+| Retry (i : item) (d : Z).
+                      (* AddAfter(i, d) called directly: the limiter is not consulted. The
+                         controller does it only to retry after a failure (Reconcile returning
+                         RequeueAfter = ReloadRetry, reloadHAProxy failing): excluded from the
+                         spacing statements, covered by the no-drop one *)
 
 (* instants at which an internal event is due *)
 Definition dues (st : qstate) : list Z :=
@@ -98,6 +103,17 @@ Definition qevent_apply (f : whenfn) (D : Z) (st : qstate) (t : Z) (ev : qevent)
                     q_dirty := q_dirty st; q_proc := q_proc st;
                     q_log := OArrive i t (t + d) :: q_log st |} in
       (* AddAfter: if duration <= 0 { q.Add(item) } else the waiting loop inserts it *)
+      if d <=? 0 then Some (q_add i st1)
+      else Some {| q_now := t; q_last := snd r; q_wait := wait_insert i (t + d) (q_wait st);
+                   q_fifo := q_fifo st; q_dirty := q_dirty st; q_proc := q_proc st;
+                   q_log := q_log st1 |}
+  | Retry i d =>
+      (* the same as Arrive with the given delay and the limiter left alone *)
+      let r := (d, q_last st) in
+      let d := fst r in
+      let st1 := {| q_now := t; q_last := snd r; q_wait := q_wait st; q_fifo := q_fifo st;
+                    q_dirty := q_dirty st; q_proc := q_proc st;
+                    q_log := OArrive i t (t + d) :: q_log st |} in
       if d <=? 0 then Some (q_add i st1)
       else Some {| q_now := t; q_last := snd r; q_wait := wait_insert i (t + d) (q_wait st);
                    q_fifo := q_fifo st; q_dirty := q_dirty st; q_proc := q_proc st;
@@ -152,3 +168,7 @@ Definition pending_by (i : item) (g : Z) (st : qstate) : Prop :=
 
 Definition arrives_only (i0 : item) (tr : list (Z * qevent)) : Prop :=
   forall t i, In (t, Arrive i) tr -> i = i0.
+
+(* no direct AddAfter (failure retries) in the history *)
+Definition no_retry (tr : list (Z * qevent)) : Prop :=
+  forall t i d, ~ In (t, Retry i d) tr.
